@@ -125,6 +125,24 @@ impl KalmanFilter {
     }
 }
 
+/// Verification hooks (feature `verif-hooks`): arbitrary filter state.
+#[cfg(feature = "verif-hooks")]
+impl KalmanFilter {
+    pub fn verif_from_parts(x: f64, v: f64, p: [f64; 4], initialized: bool) -> Self {
+        Self {
+            x,
+            v,
+            p,
+            config: KalmanConfig::for_rtt(),
+            initialized,
+        }
+    }
+
+    pub fn verif_parts(&self) -> (f64, f64, [f64; 4], bool) {
+        (self.x, self.v, self.p, self.initialized)
+    }
+}
+
 #[cfg(test)]
 mod tests {
     use super::*;
